@@ -233,6 +233,20 @@ CLAIMS = {
             "custom MIR rules: guard edges and closure return provenance, who-may-call with argument shape, field-write "
             "provenance, aggregate field origins",
             "3/C18"),
+    "C20": ("Decides on built MIR and the ADT/impl tables: AmbientSlot is a single OnceLock<AmbientSync>; across emit_core "
+            "the only OnceLock methods used on it are new/get/set, set at exactly one site; AmbientSlot::init's success is "
+            "decided by OnceLock::set (its result is ?-checked via .ok()?), no inspection of the slot precedes set "
+            "(check-then-set race), the read-back get() is only on set's success edge and every Some return is dominated by it; "
+            "the published AmbientSync is one aggregate whose five runtime pointers are as_super() of value.emitter()/filter()/"
+            "ctxt()/clock()/rng() of its own value; AmbientSync and Runtime have no interior mutability; get() falls back to the "
+            "constant EMPTY_AMBIENT_RUNTIME built from five Empty; Empty's emit/enter/exit/close have no calls, "
+            "matches/blocking_flush are constant true, now() is None; Setup::try_init_slot assembles the runtime from its own "
+            "five fields, ?-checks init, and reads slot.get() for the Init handle only after (on the success edge of) init; "
+            "init_slot = try_init_slot(..).expect(..); is_enabled = get().is_some(); the unsafe Send/Sync impls are conditional. "
+            "The behaviour under all interleavings then rests on the OnceLock contract (trusted).",
+            "custom MIR rules: API-usage whitelist on a type, error discipline, dominance on ?-success edges, aggregate "
+            "provenance, ADT interior-mutability scan, impl predicates",
+            "3/C20"),
 }
 
 REASONS_NOT_YET = "check not built yet (build in progress; DESIGN.md section 3 lists the planned rules)"
